@@ -16,25 +16,27 @@ import (
 
 // inst is one labelmap instance under test together with its per-version reference models.
 type inst struct {
-	c      *drv.Ctx
-	w      *drv.Worker
-	cl     *dvc.Client
-	h      *dvc.Hist
-	r      *rand.Rand
-	tag    string
-	name   string
-	g      *labelmodel.Geom
-	bs     [3]int
-	states map[string]*labelmodel.State
-	ever   map[uint64]bool   // every label sent to or received from the server, at any version
-	resv   map[uint64]bool   // ids handed out by fresh() (they may never reach the server)
-	local  map[string]uint64 // largest label introduced by operations at exactly this node
-	lastOp map[string]string // kind of the last mutation applied at a node
-	dirty  map[string]int    // voxels whose body changed by the last mutation at a node
-	trace  []string
-	step   int
-	conf   string
-	nviol  int
+	forced   []uint64 // arguments the next merge / cleave / renumber has to use (scripted chains)
+	namesake uint64   // the body the namesake chain works on
+	c        *drv.Ctx
+	w        *drv.Worker
+	cl       *dvc.Client
+	h        *dvc.Hist
+	r        *rand.Rand
+	tag      string
+	name     string
+	g        *labelmodel.Geom
+	bs       [3]int
+	states   map[string]*labelmodel.State
+	ever     map[uint64]bool   // every label sent to or received from the server, at any version
+	resv     map[uint64]bool   // ids handed out by fresh() (they may never reach the server)
+	local    map[string]uint64 // largest label introduced by operations at exactly this node
+	lastOp   map[string]string // kind of the last mutation applied at a node
+	dirty    map[string]int    // voxels whose body changed by the last mutation at a node
+	trace    []string
+	step     int
+	conf     string
+	nviol    int
 	// entries[l] = versions at which an operation created a mapping entry for label l (merge, renumber,
 	// cleave, split-supervoxel, split); taint[v] = why index-derived views at v are known to be off
 	entries map[uint64]map[string]bool
